@@ -628,3 +628,15 @@ func (g *Gen) idxOf(v string, t types.Type) string {
 	}
 	return g.convertInt(v, t, intT)
 }
+
+// ix(off, i) is off+i behind an uninterpreted symbol, so that quantified clauses over slice
+// elements have a trigger with the bare bound variable (the "index the constrained array
+// with the bare variable" rule); its meaning is supplied by a pattern-annotated axiom.
+func (g *Gen) ix(off, i string) string {
+	if !g.sc.has("ix") {
+		s := g.idxSort()
+		g.sc.add([]string{"ix"}, fmt.Sprintf("(declare-fun ix (%s %s) %s)", s, s, s))
+		g.sc.addAxiom([]string{"ix"}, fmt.Sprintf("(assert (forall ((o %s) (i %s)) (! (= (ix o i) %s) :pattern ((ix o i)))))", s, s, g.arith(token.ADD, "o", "i", intT)))
+	}
+	return sx("ix", off, i)
+}
